@@ -693,10 +693,18 @@ pub fn cipher_check(a: &Args) -> Report {
     let t: u32 = if long_run { 14 } else { rng.gen_range(3..7) };
     let lm = [0usize, 1, 8, 32, 150, 166, 170, 400][(g % 8) as usize];
     let m = rand_bytes(&mut rng, lm);
-    let e = vec![(g % 4) as u8];
     let src = if g % 5 == 4 { "oprf" } else { "local" };
+    // epochs of every length around the cipher's nonce and block sizes (an epoch that finds its way
+    // into the nonce or the key schedule shows only for long ones); one byte for the randomness server
+    const EPL: [usize; 12] = [1, 16, 0, 15, 17, 32, 13, 2, 166, 14, 24, 8];
+    let e: Vec<u8> = if src == "oprf" { vec![(g % 4) as u8] } else {
+      let mut v = rand_bytes(&mut rng, if long_run { [15usize, 16, 14, 13][(g as usize / 4) % 4] } else { EPL[(g as usize) % EPL.len()] });
+      if !v.is_empty() { v[0] = (g % 4) as u8; }
+      v
+    };
     // a sequence of sub-threshold reports (2 or 3) with differing associated data
-    let nrep = if long_run { 12 } else { 2 + (g % 2) as usize };
+    let nrep = if long_run { 40 } else { 2 + (g % 2) as usize };
+    let t: u32 = if long_run { 44 } else { t };
     let mut cl: Vec<RealClient> = Vec::new();
     let mut pts: Vec<Vec<u8>> = Vec::new();
     for r in 0..nrep {
